@@ -5,6 +5,7 @@ import (
 	"errors"
 	"sort"
 	"sync"
+	"sync/atomic"
 	"time"
 
 	"github.com/couchbase/moss"
@@ -37,8 +38,19 @@ func (s *LowerSnap) Map() map[string][]byte {
 	return out
 }
 
+// LowerCloseDelayNS, when non-zero, makes Close of a lower-level snapshot
+// take that long (an application whose snapshots are expensive to release):
+// it widens whatever moss does between dropping its references to superseded
+// snapshots and its next step.  Set by free-running workloads only.
+var LowerCloseDelayNS int64
+
 // Close implements moss.Snapshot.
-func (s *LowerSnap) Close() error { return nil }
+func (s *LowerSnap) Close() error {
+	if d := atomic.LoadInt64(&LowerCloseDelayNS); d > 0 {
+		time.Sleep(time.Duration(d))
+	}
+	return nil
+}
 
 // Get implements moss.Snapshot.
 func (s *LowerSnap) Get(key []byte, ro moss.ReadOptions) ([]byte, error) {
